@@ -212,3 +212,18 @@ Example ex_refresh_clears :
   (vget (s_view st1) 2%N, vget (s_view st1) 3%N, s_reported st1) = ([7%N], [8%N], [2%N; 3%N]) /\
   (vget (s_view st2) 2%N, vget (s_view st2) 3%N, s_reported st2) = ([], [], []).
 Proof. vm_compute. split; reflexivity. Qed.
+
+(** the client shows at least one diagnostic exactly when the compilation reported an error *)
+Lemma errs_of_nonempty errs : errs <> [] <-> exists l, errs_of l errs <> [].
+Proof.
+  split.
+  - destruct errs as [|[l d] errs]; [intros H; contradiction|]. intros _. exists l. unfold errs_of. cbn [filter fst]. rewrite N.eqb_refl. cbn [map]. discriminate.
+  - intros [l H] E. subst. apply H. reflexivity.
+Qed.
+
+Theorem diagnostic_iff_error st docs errs : inv st ->
+  (exists l, vget (s_view (refresh st docs errs)) l <> []) <-> errs <> [].
+Proof.
+  intros Hinv. destruct (refresh_exact st docs errs Hinv) as [Hv _]. rewrite errs_of_nonempty.
+  split; intros [l H]; exists l; [rewrite <- Hv; exact H|rewrite Hv; exact H].
+Qed.
